@@ -7,8 +7,10 @@ stdout: JSON list, one entry per job:
    ["ok"]                                        compiled
    ["diag", exception class]                     one of JMC's own diagnostics (jmc.compile.exception.EXCEPTIONS —
                                                  the family terminal_commands.py prints as an error report)
-   ["internal", exception class, file, function, lineno, message[:200], expr]
+   ["internal", exception class, file, function, lineno, message[:200], expr, frames]
                                                  any other exception; (file, function) = innermost frame inside jmc/;
+                                                 frames = the distinct [file, function] pairs of the jmc frames of the
+                                                 traceback, outermost first (which cycle a RecursionError went through);
                                                  expr = source text (whitespace removed) of the very sub-expression /
                                                  that was executing in that frame (code.co_positions -> ast node), local
                                                  names anonymised, prefixed by the kind of statement it belongs to, e.g.
@@ -20,6 +22,8 @@ stdout: JSON list, one entry per job:
                                                  (at most 40 innermost) jmc frames on the stack, outermost first
  a job {"canary": seconds} does not call the compiler: it spins for that long inside the same alarm bracket and must
  come back as ["timeout", ...] - the self-test of the hang detector (c13.py runs one in every batch).
+stdin {"op": "macro", "programs": [src...], "texts": [condition text...], "cert": str}: the observations the round-4 model of
+   Tokenizer.merge_vanilla_macro (coq/Model/TokMacro.v) is compared with (see macro_op below)
 stdin {"op": "builtins"}: stdout = the registry of built-in functions of the tree under test
    [{"name", "type" (FuncType), "args": {parameter: ArgType name}, "defaults": {parameter: text}}...]
 """
@@ -125,6 +129,185 @@ def innermost_jmc_frame(tb, stack=None):
             failing_expr(code, lasti, lineno)]
 
 
+# ------------------------------------------------------------------------------------------------------------------
+# round 4: observations of Tokenizer.merge_vanilla_macro for the comparison with coq/Model/TokMacro.v
+def _tok(t):
+    return [t.token_type.name, t.line, t.col, t.string, t.quote]
+
+
+def macro_op(req):
+    """-> {"calls": [...], "programs_run": n}.  One entry per observation:
+         {"fn": 0, "toks": [...], "kp": k, "out": ..., "clean": {...}, "repr": {...}, "src": <program or text>, "caller": name}
+             one call of merge_vanilla_macro(tokens, k): traced while a program compiled, or made directly on the tokens of a text
+         {"fn": 1 | 2, "toks": [...], "out": ...}   the whole loop of condition_to_ast (1) / Lexer._is_vanilla_func (2) on one list:
+             first list handed over -> list after the last call
+       out = ["ok", tokens] | ["diag"] | ["exc", class name];  tokens = [type, line, col, string, quote];
+       clean = {bracket token string: cleaned text | None (JMC diagnostic)} as clean_up_paren_token answers for the bracket
+       tokens of the list;  repr = {STRING token string: len(repr(string))}.
+       Lists that contain a token made by a header macro (`_macro_end`) are skipped (outside the model)."""
+    import logging
+    logging.disable(logging.CRITICAL)
+    from jmc.compile.test_compile import JMCTestPack
+    from jmc.compile.exception import EXCEPTIONS
+    from jmc.compile.tokenizer import Tokenizer, Token, TokenType
+    from jmc.compile import utils as jutils
+    import jmc.compile.command.condition as cond
+    from jmc.compile.lexer import Lexer
+    signal.signal(signal.SIGALRM, _alarm)
+    real = getattr(Tokenizer, "merge_vanilla_macro", None)
+    if real is None:        # the method the model speaks about is gone: nothing to observe (the check reports the tie as ineffective)
+        json.dump(dict(calls=[], programs_run=0, traced=0, error="Tokenizer.merge_vanilla_macro not found"), sys.stdout)
+        return
+    calls = []
+    state = dict(src=None)
+    brackets = (TokenType.PAREN_ROUND, TokenType.PAREN_SQUARE, TokenType.PAREN_CURLY)
+
+    def tables(tokens, tokenizer):
+        clean, rp = {}, {}
+        for t in tokens:
+            if t.token_type in brackets and t.string not in clean:
+                try:
+                    clean[t.string] = jutils.clean_up_paren_token(t, tokenizer)
+                except EXCEPTIONS:
+                    clean[t.string] = None
+                except Exception:  # noqa   (an internal exception of the helper: the case is not comparable)
+                    return None, None
+            if t.token_type == TokenType.STRING:
+                rp[t.string] = len(repr(t.string))
+        return clean, rp
+
+    def outcome(e, tokens):
+        if e is None:
+            return ["ok", [_tok(t) for t in tokens]]
+        if isinstance(e, EXCEPTIONS):
+            return ["diag"]
+        return ["exc", type(e).__name__]
+
+    def wrapper(self, tokens, key_pos):
+        caller = sys._getframe(1).f_code.co_name
+        before = list(tokens)
+        plain = all(getattr(t, "_macro_end", None) is None for t in before)
+        clean, rp = tables(before, self) if plain else (None, None)
+        err = None
+        try:
+            return real(self, tokens, key_pos)
+        except BaseException as e:  # noqa
+            err = e
+            raise
+        finally:
+            if clean is not None and not isinstance(err, _Timeout):
+                calls.append(dict(fn=0, toks=[_tok(t) for t in before], kp=key_pos, out=outcome(err, tokens), clean=clean, repr=rp,
+                                  src=state["src"], caller=caller, lid=id(tokens)))
+
+    Tokenizer.merge_vanilla_macro = wrapper
+    cert = req.get("cert")
+    sys_stdout, sys_stderr = sys.stdout, sys.stderr
+    sys.stdout = open(os.devnull, "w")
+    sys.stderr = open(os.devnull, "w")
+    n_run = 0
+    for src in req.get("programs", []):
+        state["src"] = src
+        n_run += 1
+        try:
+            signal.alarm(5)
+            p = JMCTestPack()
+            p.set_jmc_file(src)
+            if cert is not None:
+                p.set_cert(cert)
+            p.build()
+        except BaseException:  # noqa
+            pass
+        finally:
+            signal.alarm(0)
+    traced = len(calls)
+
+    # ---- direct calls on the tokens of condition texts (and on damaged copies of them)
+    class _Captured(Exception):
+        pass
+
+    def stop(tokens, *a, **k):
+        raise _Captured()
+
+    for text in req.get("texts", []):
+        state["src"] = text
+        try:
+            tk = Tokenizer(text, "main.jmc", expect_semicolon=False)
+            progs = tk.programs
+        except BaseException:  # noqa
+            continue
+        if not progs:
+            continue
+        base = list(progs[0])
+        variants = [base]
+        if len(base) >= 2:
+            variants.append(base[1:])                       # without its first token
+            variants.append(base[:1] + base[2:])            # a hole after the first token (connectedness broken)
+            variants.append([base[1], base[0]] + base[2:])  # first two swapped
+        for vn, toks in enumerate(variants):
+            for kp in range(-3, len(toks) + 3):
+                lst = list(toks)
+                try:
+                    tk.merge_vanilla_macro(lst, kp)
+                except BaseException:  # noqa
+                    pass
+            if vn == 0 and not (len(toks) == 1 and toks[0].token_type == TokenType.PAREN_ROUND):
+                # the loop of condition_to_ast, observed up to its first call of find_operator
+                lst = list(toks)
+                saved = cond.find_operator
+                cond.find_operator = stop
+                first = len(calls)
+                err, seen = None, False
+                try:
+                    cond.condition_to_ast(lst, tk, None, "")
+                except _Captured:
+                    seen = True
+                except BaseException as e:  # noqa
+                    err = e
+                finally:
+                    cond.find_operator = saved
+                mine = [c for c in calls[first:] if c["caller"] == "condition_to_ast"]
+                clean, rp = tables(toks, tk)
+                if clean is not None and (seen or err is not None) and len(calls) > first:
+                    calls.append(dict(fn=1, toks=[_tok(t) for t in toks], kp=0, out=outcome(err, lst), clean=clean, repr=rp, src=text,
+                                      caller="condition_to_ast", lid=0, direct=True))
+                # the loop of Lexer._is_vanilla_func (works on a copy: the list after the last traced call)
+                lx = object.__new__(Lexer)
+                lx.load_tokenizer = tk
+                first = len(calls)
+                err = None
+                try:
+                    Lexer._is_vanilla_func(lx, list(toks))
+                except BaseException as e:  # noqa
+                    err = e
+                mine = [c for c in calls[first:] if c["caller"] == "_is_vanilla_func"]
+                if clean is not None and (mine or err is not None):
+                    last = mine[-1]["out"] if mine else None
+                    out = outcome(err, []) if err is not None else last
+                    calls.append(dict(fn=2, toks=[_tok(t) for t in toks], kp=0, out=out, clean=clean, repr=rp, src=text,
+                                      caller="_is_vanilla_func", lid=0, direct=True))
+    Tokenizer.merge_vanilla_macro = real
+    sys.stdout, sys.stderr = sys_stdout, sys_stderr
+
+    # ---- traced loops of condition_to_ast: a run of calls on the same list object with positions 0, 1, 2, ...
+    loops = []
+    i = 0
+    tr = calls[:traced]
+    while i < len(tr):
+        c = tr[i]
+        if c["caller"] == "condition_to_ast" and c["kp"] == 0:
+            j = i
+            while j + 1 < len(tr) and tr[j + 1]["caller"] == "condition_to_ast" and tr[j + 1]["lid"] == c["lid"] \
+                    and tr[j + 1]["kp"] == tr[j]["kp"] + 1 and tr[j]["out"][0] == "ok":
+                j += 1
+            clean, rp = dict(c["clean"]), dict(c["repr"])
+            loops.append(dict(fn=1, toks=c["toks"], kp=0, out=tr[j]["out"], clean=clean, repr=rp, src=c["src"], caller="condition_to_ast",
+                              lid=0, calls=j - i + 1))
+            i = j + 1
+        else:
+            i += 1
+    json.dump(dict(calls=calls + loops, programs_run=n_run, traced=traced), sys.stdout)
+
+
 def main():
     import logging
     logging.disable(logging.CRITICAL)
@@ -140,6 +323,9 @@ def main():
     except Exception:  # noqa
         pass
     req = json.load(sys.stdin)
+    if req.get("op") == "macro":
+        macro_op(req)
+        return
     if req.get("op") == "builtins":
         from jmc.compile.command.jmc_function import JMCFunction, FuncType
         import jmc.compile.command.builtin_function  # noqa: F401  (registers the built-ins)
@@ -179,8 +365,13 @@ def main():
                 return ["diag", type(e).__name__]
             if isinstance(e, MemoryError):
                 reserve.clear()
-            fr = innermost_jmc_frame(e.__traceback__)
-            return ["internal", type(e).__name__, fr[0], fr[1], fr[2], str(e)[:200], fr[3]]
+            stack = []
+            fr = innermost_jmc_frame(e.__traceback__, stack)
+            distinct = []        # the DISTINCT jmc frames of the traceback, outermost first (a recursion repeats a few of them)
+            for f_ in stack:
+                if f_ not in distinct:
+                    distinct.append(f_)
+            return ["internal", type(e).__name__, fr[0], fr[1], fr[2], str(e)[:200], fr[3], distinct[:60]]
 
         try:
             try:
